@@ -40,6 +40,7 @@ pub fn translate(repo: &Path, out: &mut Out) {
             eq: "N.eqb",
             take_default: "(@nil N)",
             mcalls: vec![],
+            mmethods: vec![],
             display: vec![],
         };
         let state = vec!["self_buffer".to_string(), "self_inner".to_string()];
